@@ -398,6 +398,13 @@ impl Excl {
     };
 }
 
+thread_local! {
+    /// Builder switch `set_recompose_coeff_ctl_for_decompose_links` (decompositions go through the
+    /// `recompose/coeff` table, which puts the coefficients on the bus) for the next `interpret`
+    /// calls of this thread.  Values and relations of a program do not depend on it.
+    pub static COEFF_CTL: std::cell::Cell<bool> = const { std::cell::Cell::new(false) };
+}
+
 /// Interpret `prog` against a fresh builder and the reference semantics.
 pub fn interpret<C: Fc>(prog: &Prog, excl: Excl) -> Built<C> {
     let excl = if exclude_known() {
@@ -411,6 +418,9 @@ pub fn interpret<C: Fc>(prog: &Prog, excl: Excl) -> Built<C> {
     let mut b = CircuitBuilder::<C::EF>::new();
     if prog.recompose_npo && C::D > 1 {
         b.enable_recompose::<C::BF>(generate_recompose_trace::<C::BF, C::EF>);
+        if COEFF_CTL.with(|f| f.get()) {
+            b.set_recompose_coeff_ctl_for_decompose_links(true);
+        }
     }
     let mut out = Built::<C> {
         builder: b,
